@@ -845,7 +845,11 @@ def _is_atom(code: str) -> bool:
     except (SyntaxError, ValueError):
         return False
 
-    atoms = (ast.Name, ast.Constant, ast.Call, ast.Attribute, ast.Subscript, ast.JoinedStr)
+    if isinstance(expression, ast.Constant):
+        # 1.real is not valid syntax, (1).real is
+        return not isinstance(expression.value, (int, float, complex))
+
+    atoms = (ast.Name, ast.Call, ast.Attribute, ast.Subscript, ast.JoinedStr)
     displays = (ast.List, ast.Dict, ast.Set, ast.ListComp, ast.DictComp, ast.SetComp)
     return isinstance(expression, (*atoms, *displays))
 
